@@ -22,7 +22,7 @@ CLAIMED = {
  "C07": ("§4 C07", "every entry point is executed on fully symbolic short inputs (each byte ranges over all 256 values, partitioned by the comparisons the real parser makes) and on single structure-aware edits (truncate/flip/delete/insert/line delete/duplicate at every offset, symbolic byte) of a writer-produced GenBank record: no Go panic, the scan loop terminates, truncation is reported, and an accepted record has residues == declared length == residues present in ORIGIN.",
          "input lengths and the base record are bounded as stated; non-ASCII bytes reaching UTF-8 decoding are cut (listed under paths_cut_outside_claim); regexp.Compile on symbolic patterns is nondeterministic; io.Readers deliver whole buffers"),
  "C08": ("§4 C08", "Regions.Resize/Segment.Resize are proved, for 1..5 segments on either strand and all five modifier forms with unbounded offsets, to yield exactly the bases [lo,hi) of the spliced region (position and strand of every t-th base), extending the first/last segment outward.",
-         "segments non-empty; segment count bounded"),
+         "segments non-empty; segment count bounded; modifier text round trip with offsets up to 99 / 9999; locator composition on a fixed list of locator strings"),
  "C09": ("§4 C09", "Minimize/InvertLinear/InvertCircular are proved on collections of up to 5 segments (any overlap/orientation/order, real sort.Sort source) to give forward, increasing, non-abutting segments with the same coverage, and an inversion that partitions [0,n) with it.",
          "total number of segments bounded; n and coordinates symbolic <= 2^40"),
  "C10": ("§4 C10", "Expand(i,-n) after Shift(i,n)/Expand(i,n) is proved to restore the denotation, order, strand and markers of every shape in the bound (single parts come back as exactly that part).",
